@@ -30,15 +30,15 @@ Definition check_mac_case (c : mac_case) : bool :=
   end.
 
 Inductive hkdf_case :=
-| HAes (secret info : bytes) (chunks : list nat) (ok : bool) (out : bytes)
-| HSha (w : Z) (secret salt info : bytes) (size : nat) (ok : bool) (out : bytes).
+| HAes (secret info : bytes) (chunks : list Z) (ok : bool) (out : bytes)
+| HSha (w : Z) (secret salt info : bytes) (size : Z) (ok : bool) (out : bytes).
 
 Definition check_hkdf_case (c : hkdf_case) : bool :=
   match c with
   | HAes secret info chunks ok out =>
-      if aes_key_ok secret then opt_res_eqb (reads (aes_keyed secret) info init chunks) ok out else negb ok
+      if aes_key_ok secret then opt_res_eqb (reads (aes_keyed secret) info init (map Z.to_nat chunks)) ok out else negb ok
   | HSha w secret salt info size ok out =>
-      match (if w =? 256 then hkdf256 secret salt info size else hkdf512 secret salt info size) with
+      match (if w =? 256 then hkdf256 secret salt info (Z.to_nat size) else hkdf512 secret salt info (Z.to_nat size)) with
       | Some o => ok && bytes_eqb o out
       | None => negb ok
       end
